@@ -1,5 +1,5 @@
 """Native bounded scenarios for the Memory properties (C02, C05, C06, C12) on the REAL code. One JSON line.
-Known findings (K3, K5) are probed and reported under "known" (they do not make the run a violation)."""
+Known finding K5 is probed and reported under "known" (they do not make the run a violation)."""
 import json
 import os
 import shutil
@@ -94,6 +94,36 @@ def scenarios(which):
             if ref.get() != g({"x": 1}, {1}):
                 return dict(violation=True, cases=cases, what="call_and_shelve(...).get() differs", witness="g")
 
+            # K13 (recorded finding): functions that differ only in the values captured by their closure share cached results
+            kdir = define("def make(n):\n    def f(x):\n        return x + n\n    return f\n", "make", "modclosure")
+            r13 = (mem.cache(kdir(1))(0), mem.cache(kdir(2))(0))
+            known["K13"] = ("mem.cache(make(1))(0), mem.cache(make(2))(0) -> %r" % (r13,)) if r13 != (1, 2) else False
+            # K15 (recorded finding): a functools.wraps wrapper whose own signature differs from the wrapped function's
+            import functools as _ft
+            inner3 = define("def f3(a, b):\n    return a * b\n", "f3", "modwraps")
+
+            def _mk_wrapper(f3=inner3):
+                @_ft.wraps(f3)
+                def wrapper(scale, *args, **kw):
+                    return scale * f3(*args, **kw)
+                return wrapper
+            w3 = _mk_wrapper()
+            c3 = mem.cache(w3)
+            r15 = (c3(2, 1, 1), c3(2, 1, 5))
+            known["K15"] = ("cached wrapper(scale, *args) of f3(a, b): c(2, 1, 1), c(2, 1, 5) -> %r, plain gives %r" % (r15, (w3(2, 1, 1), w3(2, 1, 5)))) if r15 != (2, 10) else False
+            if which not in ("all", "C02"):
+                known.pop("K13", None)  # wrong values: findings of C02 only (K15 also shows in the filter_args oracle of C06 / C07)
+                known.pop("K15", None)
+            # attributes of the user's function named like the wrapper's own state
+            cases += 1
+            fa = define("def fa(x, y=0):\n    return ('fa', x, y)\n", "fa", "modattrs")
+            other = define("def other(x, y=0):\n    return ('other', x, y)\n", "other", "modattrs")
+            fa.func, fa.ignore, fa.mmap_mode, fa.timestamp = other, ["y"], "r", 0.0
+            cfa = mem.cache(fa)
+            got = [cfa(1, 2), cfa(1, 3)]
+            if got != [("fa", 1, 2), ("fa", 1, 3)]:
+                return dict(violation=True, cases=cases, what="attributes set on the function replaced the cached wrapper's own state: calls returned %r" % (got,),
+                            witness="f.func = g; f.ignore = ['y']; mem.cache(f)(1, 2), (1, 3)")
             # every call the plain function accepts is accepted by the cached wrapper: parameters named like the wrapper's own
             if which in ("all", "C06"):
                 for pname in ("self", "func", "args", "kwargs", "call_id", "shelving"):
@@ -242,19 +272,99 @@ def scenarios(which):
                         return dict(violation=True, cases=cases, what="crash state %s: the call raised %r" % (label, e), witness=dict(state=label, callback=cvc is not None))
                     if r != ("q", 1):
                         return dict(violation=True, cases=cases, what="crash state %s: wrong value %r" % (label, r), witness=label)
-            # K3: func_code.py removed first by a crash inside clear, stale entry kept, code changed
+            # an output that cannot be pickled: nothing half-written may be published under the final name (no kill involved)
+            import io as _io
+            baseu = os.path.join(root, "c4u")
+            unp = define("def unp(x):\n    return [b'x' * 100000, (lambda: x)]\n", "unp", "modunp")
+            cu_ = Memory(baseu, verbose=0).cache(unp)
+            cases += 1
+            with warnings.catch_warnings():
+                warnings.simplefilter("ignore")
+                cu_(1)
+            # ... and with mmap_mode the call still returns the value although nothing could be stored to re-load it from
+            cases += 1
+            cm_ = Memory(baseu + "_mmap", verbose=0, mmap_mode="r").cache(unp)
+            try:
+                with warnings.catch_warnings():
+                    warnings.simplefilter("ignore")
+                    r = cm_(2)
+                if r[0] != b"x" * 100000:
+                    return dict(violation=True, cases=cases, what="mmap_mode: wrong value for an output that cannot be stored", witness="mmap_mode='r'")
+            except Exception as e:  # noqa
+                return dict(violation=True, cases=cases, what="mmap_mode='r': a call whose result cannot be stored (or was evicted before the re-load) raised %r" % (e,),
+                            witness="Memory(mmap_mode='r').cache(f)(2) with f returning [b'x' * 100000, lambda: x]")
+            outs = [os.path.join(dp, f) for dp, _dn, fs_ in os.walk(baseu) for f in fs_ if f == "output.pkl"]
+            for o in outs:
+                import joblib as _jl
+                try:
+                    _jl.load(o)
+                except Exception as e:  # noqa
+                    return dict(violation=True, cases=cases, what="a result that failed to pickle was published under its final name as a truncated file: load raises %r; check_call_in_cache -> %r"
+                                % (e, cu_.check_call_in_cache(1)), witness="cached function returning [b'x' * 100000, lambda: x]")
+            # a kill at every file-system removal made while the cache of an edited function is wiped (MemorizedFunc.clear):
+            # whatever is left on disk, the next session never serves a result of the old code
+            import subprocess
             base = os.path.join(root, "c4")
+            srcdir = define.dir
+            child = (
+                "import os, sys, textwrap\n"
+                "sys.path.insert(0, %r)\n"
+                "import replay_mem_helper as H\n"
+                "kill_at = int(sys.argv[1])\n"
+                "count = [0]\n"
+                "def wrap(fn):\n"
+                "    def w(*a, **k):\n"
+                "        count[0] += 1\n"
+                "        if count[0] == kill_at:\n"
+                "            os._exit(9)\n"
+                "        return fn(*a, **k)\n"
+                "    return w\n"
+                "os.unlink, os.rmdir, os.remove = wrap(os.unlink), wrap(os.rmdir), wrap(os.remove)\n"
+                "files_first = sys.argv[2] == 'files-first'\n"
+                "_scandir = os.scandir\n"
+                "class Ordered:\n"
+                "    # the order in which a directory is listed is unspecified: try both extremes\n"
+                "    def __init__(self, it):\n"
+                "        self.it = it\n"
+                "        self.entries = sorted(list(it), key=lambda e: (e.is_dir(follow_symlinks=False) == files_first, e.name))\n"
+                "    def __enter__(self): return self\n"
+                "    def __exit__(self, *a): self.it.close()\n"
+                "    def __iter__(self): return iter(self.entries)\n"
+                "    def close(self): self.it.close()\n"
+                "os.scandir = lambda *a, **k: Ordered(_scandir(*a, **k))\n"
+                "from joblib import Memory\n"
+                "new = H.define(%r, 'def w(x):\\n    return (\\'new\\', x)\\n', 'w', 'modk3')\n"
+                "Memory(%r, verbose=0).cache(new)(1)\n"
+                "print('removals', count[0])\n") % (os.path.dirname(os.path.abspath(__file__)), srcdir, base)
+            snap = base + "_snap"
             old = define("def w(x):\n    return ('old', x)\n", "w", "modk3")
-            m = Memory(base, verbose=0)
-            co = m.cache(old)
-            co(1)
-            co(2)
-            os.unlink(os.path.join(base, "joblib", co.func_id, "func_code.py"))
-            fresh_process_state()
-            new = define("def w(x):\n    return ('new', x)\n", "w", "modk3")
-            cn = Memory(base, verbose=0).cache(new)
-            cn(1)
-            known["K3"] = cn(2) != ("new", 2)
+            co = Memory(base, verbose=0).cache(old)
+            for i in range(1, 4):
+                co(i)
+            shutil.copytree(base, snap)
+            kill_at, listing = 1, "files-first"
+            while True:
+                shutil.rmtree(base)
+                shutil.copytree(snap, base)
+                pr = subprocess.run([sys.executable, "-c", child, str(kill_at), listing], capture_output=True, text=True, timeout=120)
+                cases += 1
+                fresh_process_state()
+                new = define("def w(x):\n    return ('new', x)\n", "w", "modk3")
+                cn = Memory(base, verbose=0).cache(new)
+                got = [cn(i) for i in range(1, 4)]
+                if got != [("new", i) for i in range(1, 4)]:
+                    return dict(violation=True, cases=cases, what="process killed at the %d-th file removal while the cache of an edited function was wiped: the next session got %r" % (kill_at, got),
+                                witness=dict(kill_at_removal=kill_at, directory_listing_order=listing, child_exit=pr.returncode))
+                if pr.returncode == 0:
+                    if listing == "files-first":
+                        kill_at, listing = 1, "directories-first"
+                        continue
+                    break  # the wipe ran to completion: every earlier kill point has been tried, under both listing orders
+                if pr.returncode != 9:
+                    return dict(violation=True, cases=cases, what="harness: crash child failed: %s" % pr.stderr.strip().splitlines()[-1:], witness=kill_at)
+                kill_at += 1
+                if kill_at > 60:
+                    break
 
         # ---------------- extract_first_line: inverse of the formatting, total on every prefix
         if which in ("all", "C05", "C12"):
